@@ -376,7 +376,14 @@ def r5_set_env(ctx):
             ctx.bad("set_env|push-only-when-absent", f.where(c.block), "set_env pushes a pair even when the key exists")
 
 
-RULES = [("C15-R1", r1_gate), ("C15-R2", r2_no_shell), ("C15-R3", r3_caps), ("C15-R3b", r3b_refusal_before_spawn), ("C15-R4", r4_nothing_dropped), ("C15-R5", r5_set_env)]
+def r6_configured_text_outlives_configuration(ctx):
+    """What the script configured is what the child gets only if the text stored in the command is still there when run() is
+    called: it must live on the persistent arena like the command itself (shared with C02-R1, host-store)."""
+    from .c02 import host_value_storage
+    host_value_storage(ctx)
+
+
+RULES = [("C15-R1", r1_gate), ("C15-R2", r2_no_shell), ("C15-R3", r3_caps), ("C15-R3b", r3b_refusal_before_spawn), ("C15-R4", r4_nothing_dropped), ("C15-R5", r5_set_env), ("C15-R6", r6_configured_text_outlives_configuration)]
 
 EXPLANATION = (
     "R1: the platform process runner is invoked only from the `run` arm of the command dispatcher, edge-dominated by "
